@@ -422,6 +422,7 @@ class FaultyText(io.TextIOBase):
         self.n = 0
         self.chunks = []
         self.refused = []  # payloads of refused calls
+        self.reported = []  # ... of those, the ones whose API call then raised (the caller was told)
         self.label = label
 
     def writable(self):
@@ -496,7 +497,7 @@ class Actor:
         decoded (the stream lost a definition to the fault) - C04's territory, not judged here."""
         if self.sink is None:
             return False
-        for payload in self.sink.refused:
+        for payload in self.sink.reported:
             lines = [ln for ln in payload.splitlines() if ln.strip()]
             # excused only when the refused call carried nothing but definitions; a call that bundles a record
             # with its definitions and then forgets them is the writer's doing
@@ -560,6 +561,7 @@ def execute(plan, keep_log=False):
                 if len(targets) > 1:
                     w.probe("same-object-to-two-writers")
                 for a in targets:
+                    n_refused = len(a.sink.refused) if a.sink is not None else 0
                     try:
                         a.writer.write(rec)
                         a.expected.append(exp)
@@ -572,6 +574,7 @@ def execute(plan, keep_log=False):
                         w.log(a.id, "write", op.get("desc") or ("group:" + op["group"]), "->", type(e).__name__)
                         if a.faulty and isinstance(e, OSError):
                             w.probe("io-refused-write-then-continue")  # refused by the injected fault: not in the model
+                            a.sink.reported += a.sink.refused[n_refused:]  # the caller was told about these
                         else:
                             add([_viol("C03.write-raises", "write of a valid record raised %s: %s" % (type(e).__name__, e))], "step %d %s" % (oi, a.id))
                 if exp["nested"]:
@@ -587,12 +590,15 @@ def execute(plan, keep_log=False):
                 vals = []
                 for typ, _ in fields:
                     vals.append({1, 2} if typ == "record" else ([{3}] if typ in ("record[]", "stringlist") else ("bad" if typ == "string" else 1)))
+                n_refused = len(a.sink.refused) if a.sink is not None else 0
                 try:
                     rec = d(*vals)
                     a.writer.write(rec)
                     w.log(a.id, "write_bad", op["desc"], "-> ok (unexpected)")
                     add([_viol("C03.write-raises", "a record holding an unpackable nested value was written without error")], "step %d %s" % (oi, a.id))
                 except Exception as e:  # noqa: BLE001
+                    if a.sink is not None:
+                        a.sink.reported += a.sink.refused[n_refused:]  # the call raised: the caller was told
                     w.probe("refused-write-then-continue")
                     w.log(a.id, "write_bad", op["desc"], "->", type(e).__name__)
             elif kind == "flush":
